@@ -33,9 +33,10 @@ MUTANTS = {
         m("subtree-starts-empty", S, "        self.subtree_tasks: set[Task] = {task}", "        self.subtree_tasks: set[Task] = set()", "C03.4"),
     ],
     "C04": [
+        m("simple-expression-always-valid", E, "    def is_valid(self) -> bool:\n        # A cached expression is only valid if the values (e.g. Files) and expressions nested in\n        # its arguments are still valid.\n        return all(\n            not isinstance(value, Value) or value.is_valid()\n            for value in iter_nested_value((self.args, self.kwargs))\n        )\n", "", "C04.5"),
         m("validity-skipped", S, "        elif self._is_valid_value(result):\n            # Result must still be valid to use.\n            return result, True, call_hash", "        elif True:\n            return result, True, call_hash", "C04.1"),
         m("is_valid_nested-any", V, "        return all(map(self.is_valid, iter_nested_value(nested_value)))", "        return any(map(self.is_valid, iter_nested_value(nested_value)))", "C04.1"),
-        m("contentfile-unguarded", F, "        if self.filesystem.exists(self.path):\n            # Use filesystem.open() to avoid triggering a recursive hash update.\n            with self.filesystem.open(self.path, mode=\"rb\") as infile:\n                content_hash = hash_stream(infile)\n        else:", "        if True:\n            with self.filesystem.open(self.path, mode=\"rb\") as infile:\n                content_hash = hash_stream(infile)\n        else:", "C04.2"),
+        m("contentfile-unguarded", F, "        if self.filesystem.isfile(self.path):\n            # Use filesystem.open() to avoid triggering a recursive hash update.\n            with self.filesystem.open(self.path, mode=\"rb\") as infile:\n                content_hash = hash_stream(infile)\n        else:", "        if True:\n            with self.filesystem.open(self.path, mode=\"rb\") as infile:\n                content_hash = hash_stream(infile)\n        else:", "C04.2"),
         m("ifile-validates", F, "    def is_valid(self) -> bool:\n        # IFiles are always valid.\n        return True", "    def is_valid(self) -> bool:\n        return self.exists()", "C04.3"),
         m("handle-always-valid", "redun/handle.py", "        return scheduler.backend.is_valid_handle(self)", "        return True", "C04.3"),
     ],
@@ -55,6 +56,7 @@ MUTANTS = {
         m("register-under-different-key", S, "        self._pending_expr[parent_job][expr.get_hash()] = (promise, expr)", "        self._pending_expr[parent_job][id(expr)] = (promise, expr)", "C06.4"),
     ],
     "C07": [
+        m("collapse-removes-slot", S, "        parent_job.child_jobs[parent_job.child_jobs.index(self)] = other_job", "        parent_job.child_jobs.remove(self)", "C07.4"),
         m("preprocess-every-entry", S, "        if job.args is None:\n            # Preprocess", "        if True:\n            # Preprocess", "C07.1"),
         m("children-unsorted", H, "sorted(child_call_hashes)])", "list(child_call_hashes)])", "C07.3"),
         m("time-in-args-hash", S, "        job.eval_hash, job.args_hash = hash_args_eval(self.type_registry, job.task, args, kwargs)", "        stamp = time.time()\n        job.eval_hash, job.args_hash = hash_args_eval(self.type_registry, job.task, args + (stamp,), kwargs)", "C07.2"),
@@ -124,6 +126,7 @@ MUTANTS = {
         m("raw-pickle", E, "        options_hash = hash_bytes(pickle_dumps(self._options))\n        export_options_hash = hash_struct(list(sorted(self._export_options)))\n        if not self._export_options:\n            # Backwards", "        import pickle\n\n        options_hash = hash_bytes(pickle.dumps(self._options))\n        export_options_hash = hash_struct(list(sorted(self._export_options)))\n        if not self._export_options:\n            # Backwards", "C16.3"),
     ],
     "C17": [
+        m("overrides-filtered-by-base", T, "        # Be sure to clone the actual type, in case it's a derived one.\n        return self.__class__(\n            self.func,\n            name=self.name,\n            namespace=self.namespace,\n            version=self.version,\n            compat=self.compat,\n            script=self.script,\n            source=self.source,\n            hash_includes=self._hash_includes,\n            task_options_base=self._task_options_base,\n            task_options_override=new_task_options_update,\n        )", "        for key in list(new_task_options_update):\n            if self._task_options_base.get(key) == new_task_options_update[key]:\n                del new_task_options_update[key]\n        return self.__class__(\n            self.func,\n            name=self.name,\n            namespace=self.namespace,\n            version=self.version,\n            compat=self.compat,\n            script=self.script,\n            source=self.source,\n            hash_includes=self._hash_includes,\n            task_options_base=self._task_options_base,\n            task_options_override=new_task_options_update,\n        )", "C17.2"),
         m("clone-drops-version", T, "            version=self.version,\n            compat=self.compat,\n            script=self.script,\n            source=self.source,\n            hash_includes=self._hash_includes,\n            task_options_base=self._task_options_base,\n            task_options_override=new_task_options_update,\n        )", "            compat=self.compat,\n            script=self.script,\n            source=self.source,\n            hash_includes=self._hash_includes,\n            task_options_base=self._task_options_base,\n            task_options_override=new_task_options_update,\n        )", "C17.2"),
         m("base-options-hashed", T, "        if self._task_options_override:\n            task_options_hash = [get_type_registry().get_hash(self._task_options_override)]", "        if self._task_options_override:\n            task_options_hash = [get_type_registry().get_hash({**self._task_options_base, **self._task_options_override})]", "C17.1"),
         m("includes-unsorted", T, "            hash_includes_hash = sorted(map(get_type_registry().get_hash, self._hash_includes))", "            hash_includes_hash = list(map(get_type_registry().get_hash, self._hash_includes))", "C17.1"),
@@ -133,6 +136,7 @@ MUTANTS = {
         m("setter-without-rehash", T, "    def is_async(self) -> bool:", "    def set_version(self, version):\n        self.version = version\n\n    def is_async(self) -> bool:", "C17.3"),
     ],
     "C18": [
+        m("options-filtered-before-hash", E, "        options_hash = hash_bytes(pickle_dumps(self._options))\n        export_options_hash = hash_struct(list(sorted(self._export_options)))\n        if not self._export_options:", "        options_hash = hash_bytes(pickle_dumps({k: v for k, v in self._options.items() if v is not None}))\n        export_options_hash = hash_struct(list(sorted(self._export_options)))\n        if not self._export_options:", "C18.1"),
         m("scheduler-expr-ignores-options", E, "        if not self._options and not self._export_options:\n            # Backwards compatible hash.\n            return hash_struct([\"SchedulerExpression\", self.task_name, args_hash])\n        else:", "        if True:\n            return hash_struct([\"SchedulerExpression\", self.task_name, args_hash])\n        else:", "C18.1"),
         m("simple-expr-ignores-func", E, "        return hash_struct([\"SimpleExpression\", self.func_name, args_hash])", "        return hash_struct([\"SimpleExpression\", args_hash])", "C18.1"),
         m("wrong-tag", E, "        return hash_struct([\"ValueExpression\", value_hash])", "        return hash_struct([\"SimpleExpression\", value_hash])", "C18.1"),
@@ -143,14 +147,17 @@ MUTANTS = {
     "C19": [
         m("frozenset-mapped-only", U, "    elif value_type is set:\n        return {map_nested_value(func, item) for item in value}", "    elif value_type is set or value_type is frozenset:\n        return {map_nested_value(func, item) for item in value}", "C19.1"),
         m("dict-keys-not-iterated", U, "        for key in value.keys():\n            yield False, key\n", "", "C19.1"),
-        m("noninit-fields-dropped", U, "        for field in dataclasses.fields(value):\n            if not field.init:\n                setattr(\n                    mapped_value, field.name, map_nested_value(func, getattr(value, field.name))\n                )\n", "", "C19.1"),
+        m("noninit-fields-dropped", U, "        for field in dataclasses.fields(value):\n            if not field.init:\n                # This syntax is frozen dataclass compatible.\n                object.__setattr__(\n                    mapped_value, field.name, map_nested_value(func, getattr(value, field.name))\n                )\n", "", "C19.1"),
+        m("plain-setattr-on-frozen", U, "                object.__setattr__(\n                    mapped_value, field.name,", "                setattr(\n                    mapped_value, field.name,", "C19.4"),
         m("tuple-becomes-list", U, "        return tuple([map_nested_value(func, item) for item in value])", "        return [map_nested_value(func, item) for item in value]", "C19.2"),
         m("evaluate-iterates-original", S, "            arg for arg in iter_nested_value(pending_expr) if isinstance(arg, Promise)", "            arg for arg in iter_nested_value(expr) if isinstance(arg, Promise)", "C19.3"),
     ],
     "C20": [
+        m("reject-always-rerecords", S, "                if job.call_hash:\n                    # The failed call was already recorded", "                if False:\n                    # The failed call was already recorded", "C20.6"),
+        m("call_hash-copied-early", S, "        def then(result: Any) -> None:\n            self.call_hash = other_job.call_hash\n", "        self.call_hash = other_job.call_hash\n\n        def then(result: Any) -> None:\n", "C20.7"),
         m("row-stores-other-hash", D, "                        value_hash=result_hash,\n                    )\n                )\n\n                # Record CallEdges", "                        value_hash=args_hash,\n                    )\n                )\n\n                # Record CallEdges", "C20.1"),
         m("second-callnode-hash-site", S, "                job.call_hash = hash_call_node(\n                    job.task.hash, job.args_hash, result_hash, child_call_hashes\n                )", "                job.call_hash = hash_struct([\"CallNode\", job.task.hash, job.args_hash, result_hash, child_call_hashes])", "C20"),
-        m("reject-uses-expr-args-as-eval", S, "                    eval_args=job.eval_args,\n                    result_hash=error_hash,", "                    eval_args=(job.expr.args, job.expr.kwargs),\n                    result_hash=error_hash,", "C20.3"),
+        m("reject-uses-expr-args-as-eval", S, "                        eval_args=job.eval_args,\n                        result_hash=error_hash,", "                        eval_args=(job.expr.args, job.expr.kwargs),\n                        result_hash=error_hash,", "C20.3"),
         m("job-tag-on-execution-id", S, "            self.backend.record_tags(entity_type=TagEntity.Job, entity_id=job.id, tags=job_tags)", "            self.backend.record_tags(entity_type=TagEntity.Job, entity_id=job.execution.id, tags=job_tags)", "C20.4"),
         m("root-job-for-every-job", D, "            if not job.parent_job:\n                # Record top-level job for the execution. The pending", "            if True:\n                # Record top-level job for the execution. The pending", "C20.5"),
     ],
